@@ -476,7 +476,7 @@ ERRLINE_RE = re.compile(r"(?m)( ERR | FTL |\bERR\b|\bFTL\b|^Error:|error)")
 
 
 class Result:
-    __slots__ = ("exit", "out", "err", "timed_out", "cpu_killed", "events", "wall", "signal")
+    __slots__ = ("exit", "out", "err", "timed_out", "cpu_killed", "events", "wall", "signal", "tracer_failed")
 
     def __init__(self):
         self.exit = None
@@ -487,6 +487,7 @@ class Result:
         self.events = []
         self.wall = 0.0
         self.signal = None
+        self.tracer_failed = False
 
     @property
     def panicked(self):
@@ -558,6 +559,11 @@ def run(cmd, cwd, env=None, timeout=600, strace_root=None, cpu_limit=None, stdin
         if r.signal in (signal.SIGXCPU, signal.SIGKILL) and cpu_limit and not r.timed_out:
             r.cpu_killed = True
     if trace_file:
+        # the tracer itself can fail under load (ptrace(PTRACE_LISTEN): Input/output error, attach races): the run then says nothing
+        # about the tracee. Such a run is reported like a watchdog firing, i.e. every check treats it as inconclusive.
+        if re.search(r"^strace: (ptrace\(|attach:|Process \d+ detached unexpectedly|cannot|Cannot)", r.err, re.M):
+            r.tracer_failed = True
+            r.timed_out = True
         try:
             r.events = parse_strace(trace_file, strace_root)
             if "+++ killed by SIGXCPU" in open(trace_file, errors="replace").read()[-4000:]:
